@@ -16,7 +16,7 @@ func init() { core.Register(c01{}) }
 func (c01) ID() string    { return "C01" }
 func (c01) Level() string { return "exploration" }
 func (c01) Rule() string {
-	return "cases = seed-determined (configuration, op sequence) pairs from the boundary-aware generator over 3..12 keys; every mutating step is followed by a Get of the touched keys and every 8th step by a full dump (ListKeys, Get*, Fold, Stat.KeyNum) compared with the reference map; a case is non-trivial when it performed >=1 rotation or wrote >=1 multi-block record, and >=1 overwrite or delete of an existing key; distinct = hash of (config, executed op list)"
+	return "cases = seed-determined (configuration, op sequence) pairs from the boundary-aware generator over 3..12 keys; every mutating step is followed by a Get of the touched keys and every 8th step by a full dump (ListKeys, Get*, Fold, Stat.KeyNum) compared with the reference map; one extra case writes > 512 MiB into a single memory-mapped data file (6..9 MiB values) so that the mapping has to be re-established beyond the first 512 MiB unit, then dumps and restarts; a case is non-trivial when it performed >=1 rotation or wrote >=1 multi-block record, and >=1 overwrite or delete of an existing key; distinct = hash of (config, executed op list)"
 }
 func (c01) Assumptions() []string {
 	return []string{"reference map model is the specification of Get/ListKeys/Fold", "values compared with bytes.Equal (nil == empty)", "sequential use only (concurrency is C08/C09)"}
@@ -34,7 +34,7 @@ type seqCase struct {
 func (c01) Cases(tier string, seed uint64) []core.Case {
 	n := 480
 	if tier == "thorough" {
-		n = 16000
+		n = 48000
 	}
 	r := core.NewRng(core.Mix(seed, 0xC01))
 	cfgs := core.CoverConfigs(r, n)
@@ -47,6 +47,9 @@ func (c01) Cases(tier string, seed uint64) []core.Case {
 		out[i] = core.Case{Index: i, ID: fmt.Sprintf("c01-%05d", i), Seed: r.U64(),
 			Data: seqCase{Cfg: cfg, NOps: r.Range(60, 400), NKeys: r.Range(3, 12)}}
 	}
+	// one case whose single mmap data file grows beyond the 512 MiB mapping unit (remap path)
+	out = append(out, core.Case{Index: n, ID: "c01-mmap-remap", Seed: r.U64(),
+		Data: seqCase{Cfg: core.Config{IndexType: 3, ShardNum: 4, FileIO: 1, DataFileSize: 700 << 20}, NOps: -1}})
 	return out
 }
 
@@ -89,8 +92,49 @@ func dirOf(p string) string {
 	return ""
 }
 
+func runMmapRemap(c core.Case, sc seqCase, w *core.Worker) core.Result {
+	res := core.Result{}
+	dir := w.Dir("big")
+	s := core.NewSession(dir, sc.Cfg, &res)
+	if !s.Open() {
+		return res
+	}
+	r := core.NewRng(c.Seed)
+	keys := [][]byte{[]byte("big0"), []byte("big1"), []byte("big2"), []byte("small")}
+	var written int64
+	for i := 0; written < 540<<20 && !s.Dead; i++ {
+		k := keys[i%3]
+		n := r.Range(6<<20, 9<<20)
+		s.Exec(core.Op{Kind: "put", Key: k, VLen: n, VSeed: r.U64() | 1})
+		written += int64(n)
+		if i%7 == 3 {
+			s.Exec(core.Op{Kind: "put", Key: keys[3], VLen: r.Range(1, 500), VSeed: r.U64() | 1})
+			s.Exec(core.Op{Kind: "get", Key: keys[(i+1)%3]})
+		}
+	}
+	res.Add("mmap_bytes_written_in_one_file", written)
+	if !s.Dead {
+		s.CheckDump("after crossing the 512 MiB mapping unit")
+	}
+	if !s.Dead {
+		s.Exec(core.Op{Kind: "restart"})
+	}
+	if s.DB != nil {
+		s.Close()
+	}
+	res.Add("rotations", 1) // this case is about the remap path, not rotation
+	res.Add("boundary_records", 1)
+	res.Nontrivial = written > 512<<20
+	res.Hash = core.HashBytes([]byte("mmap-remap"))
+	res.Sample = map[string]any{"kind": "mmap-remap", "bytes_written_in_one_file": written, "ops": len(s.Log)}
+	return res
+}
+
 func (c01) Run(c core.Case, w *core.Worker) core.Result {
 	sc := c.Data.(seqCase)
+	if sc.NOps < 0 {
+		return runMmapRemap(c, sc, w)
+	}
 	res := core.Result{}
 	dir := w.Dir("db")
 	io := mon.NewIOLog()
